@@ -566,8 +566,10 @@ func VerifyLinkSignatureThesholds(layout Layout,
 		// authorized, the layout contains a verification key and the signature
 		// verification passes.  Only good links are stored, to verify thresholds
 		// below.
-		isAuthorizedSignature := false
 		for signerKeyID, linkEnv := range linksPerStep {
+			// Whether this link was authorized via the step's pubkeys.
+			// Has to be determined for every link anew.
+			isAuthorizedSignature := false
 			for _, authorizedKeyID := range step.PubKeys {
 				if signerKeyID == authorizedKeyID {
 					if verifierKey, ok := layout.Keys[authorizedKeyID]; ok {
